@@ -166,7 +166,12 @@ Proof.
     + right. exists [r]. split; [reflexivity|]. split; [discriminate|].
       intros rest. cbn [app]. apply scan_meta. exact Em.
     + left. split; [reflexivity|]. intros ->. rewrite backslash_in_meta in Em. discriminate.
-  - right.
+  - destruct (65535 <? r) eqn:Ebmp.
+    { left. replace (r =? 7) with false by lia. replace (r =? 12) with false by lia.
+      replace (r =? 10) with false by lia. replace (r =? 13) with false by lia.
+      replace (r =? 9) with false by lia. replace (r =? 11) with false by lia.
+      replace (r <? 256) with false by lia. split; [reflexivity | lia]. }
+    right.
     destruct (r =? 7) eqn:E7. { assert (r = 7) by lia; subst. exists [97]. repeat split; try discriminate. }
     destruct (r =? 12) eqn:E12. { assert (r = 12) by lia; subst. exists [102]. repeat split; try discriminate. }
     destruct (r =? 10) eqn:E10. { assert (r = 10) by lia; subst. exists [110]. repeat split; try discriminate. }
@@ -182,24 +187,17 @@ Proof.
       * rewrite to_hex_2 by lia.
         exists [120; hex_char (r / 16); hex_char (r mod 16)]. split; [reflexivity|]. split; [discriminate|].
         intros rest. cbn [app]. rewrite scan_hex_digits2 by lia. first [reflexivity | f_equal; f_equal; lia | f_equal; lia].
-    + destruct (65535 <? r) eqn:Ebmp.
-      * exists ([120; 123] ++ to_hex r ++ [125]). split; [reflexivity|]. split; [discriminate|].
-        intros rest. cbn [app]. unfold scan_char_escape.
-        cbn -[to_hex scan_hex_brace].
-        rewrite <- app_assoc. unfold to_hex.
-        rewrite (scan_brace_to_hex 15); [| lia | change (16 ^ Z.of_nat 16) with 18446744073709551616; lia].
-        cbn [app scan_hex_brace]. reflexivity.
-      * destruct (r <? 4096) eqn:E4096.
-        -- rewrite to_hex_3 by lia. cbn [length Nat.sub repeat app].
-           exists [117; 48; hex_char (r / 256); hex_char (r / 16 mod 16); hex_char (r mod 16)].
-           split; [reflexivity|]. split; [discriminate|].
-           intros rest. cbn [app]. change 48 with (hex_char 0).
-           rewrite scan_hex_digits4 by lia. first [reflexivity | f_equal; f_equal; lia | f_equal; lia].
-        -- rewrite to_hex_4 by lia. cbn [length Nat.sub repeat app].
-           exists [117; hex_char (r / 4096); hex_char (r / 256 mod 16); hex_char (r / 16 mod 16); hex_char (r mod 16)].
-           split; [reflexivity|]. split; [discriminate|].
-           intros rest. cbn [app].
-           rewrite scan_hex_digits4 by lia. first [reflexivity | f_equal; f_equal; lia | f_equal; lia].
+    + destruct (r <? 4096) eqn:E4096.
+      * rewrite to_hex_3 by lia. cbn [length Nat.sub repeat app].
+        exists [117; 48; hex_char (r / 256); hex_char (r / 16 mod 16); hex_char (r mod 16)].
+        split; [reflexivity|]. split; [discriminate|].
+        intros rest. cbn [app]. change 48 with (hex_char 0).
+        rewrite scan_hex_digits4 by lia. first [reflexivity | f_equal; f_equal; lia | f_equal; lia].
+      * rewrite to_hex_4 by lia. cbn [length Nat.sub repeat app].
+        exists [117; hex_char (r / 4096); hex_char (r / 256 mod 16); hex_char (r / 16 mod 16); hex_char (r mod 16)].
+        split; [reflexivity|]. split; [discriminate|].
+        intros rest. cbn [app].
+        rewrite scan_hex_digits4 by lia. first [reflexivity | f_equal; f_equal; lia | f_equal; lia].
 Qed.
 
 Definition no_surrogate (r : Z) : Prop := ~ (55296 <= r <= 57343).
